@@ -1,6 +1,7 @@
 import CasbinVerif.Driver.Proto
 import CasbinVerif.Model.Loader
 import CasbinVerif.Model.Distributed
+import CasbinVerif.Model.Rbac
 import CasbinVerif.Spec.Perm
 import CasbinVerif.Spec.Mirror
 /-
@@ -187,6 +188,34 @@ def parseFilter (ts : List String) : Option (Option Flt.Filter) :=
 /-- the persist predicate of a Self call: `n` = nil, `0` / `1` = a function returning false / true -/
 def parsePersist : String → Option (Option Bool)
   | "n" => some none | "0" => some (some false) | "1" => some (some true) | _ => none
+
+
+deriving instance BEq for Expr
+deriving instance BEq for ModelDef
+
+def showSortedDup (l : List String) : String :=
+  if l.isEmpty then "-" else " ".intercalate (sortStrs (l.map encodeTok))
+
+def showListing : Rbac.Listing Rule → String
+  | .ok l => "L " ++ encodeRules l
+  | .err => "err"
+
+/-- the pure `enforce` of the C16 theorems on the current rules and role managers -/
+def pureEnforce (e : Enf) (rvals : List Val) : Option Bool :=
+  let links := fun (gt : String) (args : List String) =>
+    match args with
+    | u :: v :: ds => (match e.rm.lookup gt with | some rm => rm.hasLink u v ds | none => false)
+    | _ => false
+  (enforce e.md (fun pt => ((e.p.lookup pt).map (·.policy)).getD []) links e.fn e.evalTab {} none rvals).map (·.1)
+
+/-- `GetImplicitUsersForPermission`: candidates of the current rules -/
+def candidatesOf (e : Enf) : List String :=
+  let pSubjects := e.md.p.flatMap (fun (pt, toks) =>
+    match toks.idxOf? "sub" with
+    | some j => (((e.p.lookup pt).map (·.policy)).getD []).map (fun r => r.getD j "") |>.eraseDups
+    | none => [])
+  let col (j : Nat) := e.md.g.flatMap (fun (gt, _, _) => (((e.g.lookup gt).map (·.policy)).getD []).map (fun r => r.getD j "") |>.eraseDups)
+  Rbac.candidateUsers pSubjects (col 0) (col 1)
 
 def enfOp (st : EnfSt) (ts : List String) : Option (EnfSt × String × String × Bool) :=
   let hdr (st' : EnfSt) : Option (EnfSt × String × String × Bool) := some (st', "#", "-", true)
@@ -452,6 +481,72 @@ def enfOp (st : EnfSt) (ts : List String) : Option (EnfSt × String × String ×
               let inHyp := wfG && hOk
               ret e (showBool b) (if inHyp then sp else if stateOk e && ep.prm.isEmpty then "?" ++ sp else "-") inHyp
           | none => ret e "err" "-" true
+      | "iroles", gt :: u :: ds => do
+          let u ← decodeTok u; let ds ← decodeAll ds
+          if (ep.prm.lookup gt).isSome then ret e "none" "-" false else
+          match e.rm.lookup gt with
+          | none => ret e "err" "-" true
+          | some rm =>
+              match Rbac.implicitRoles rm u ds with
+              | none => ret e "fuel" "-" true
+              | some l =>
+                  -- spec: the other names for which g() holds (C16.implicitRoles_iff_hasLink); inside
+                  -- the hypothesis when every listed role is within the depth limit (C16.depthOk_iff)
+                  let names := (rm.links.map (·.2.1)).eraseDups
+                  let sp := names.filter (fun r => r != u && reachB rm.links (rm.dom ds) rm.maxLevel u r)
+                  let depthOk := l.all (fun r => rm.hasLink u r ds)
+                  ret e (showSet l) (showSet sp) depthOk
+      | "iusersrole", r :: ds => do
+          let r ← decodeTok r; let ds ← decodeAll ds
+          if !ep.prm.isEmpty then ret e "none" "-" false else
+          let parts := e.md.g.filterMap (fun (gt, _, _) => (e.rm.lookup gt).bind (fun rm => Rbac.implicitUsersForRole rm r ds))
+          ret e (showSortedDup parts.flatten) "-" true
+      | "iperms", pt :: gt :: u :: ds => do
+          let u ← decodeTok u; let ds ← decodeAll ds
+          if (ep.prm.lookup gt).isSome then ret e "none" "-" false else
+          match e.rm.lookup gt, e.p.lookup pt, e.md.p.lookup pt with
+          | some rm, some s, some toks =>
+              ret e (showListing (Rbac.implicitPermissions s.policy rm (toks.idxOf? "dom") u ds)) "-" true
+          | _, _, _ => ret e "err" "-" true
+      | "igrant", u :: rest => do
+          -- igrant <user> <request tail…>: does a permission listed for the user grant the request?
+          -- (with a domain the first element of the tail is the domain)
+          let u ← decodeTok u; let tail ← decodeAll rest
+          if !ep.prm.isEmpty then ret e "none" "-" false else
+          let dom := e.md == Rbac.rbacDomModel
+          let ds := if dom then tail.take 1 else []
+          match e.rm.lookup "g", e.p.lookup "p", e.md.p.lookup "p" with
+          | some rm, some s, some toks =>
+              match Rbac.implicitPermissions s.policy rm (toks.idxOf? "dom") u ds with
+              | .err => ret e "err" "-" true
+              | .ok perms =>
+                  let granted := perms.any (fun perm => perm.tail == tail)
+                  -- spec: the decision of enforce() (C16.enforce_iff_listed / _domain)
+                  let inFamily := (e.md == Rbac.rbacModel && tail.length == 2) || (dom && tail.length == 3)
+                  let arity := s.policy.all (fun r => r.length == toks.length)
+                  let d24 := !s.policy.isEmpty || tail.getD (if dom then 1 else 0) "" != ""
+                  let depthOk := match Rbac.implicitRoles rm u ds with
+                    | some l => l.all (fun r => rm.hasLink u r ds)
+                    | none => false
+                  let sp := match pureEnforce e (Val.str u :: tail.map Val.str) with
+                    | some b => showBool b
+                    | none => "err"
+                  ret e (showBool granted) sp (inFamily && arity && d24 && depthOk)
+          | _, _, _ => ret e "err" "-" true
+      | "iusers", perm => do
+          let perm ← decodeAll perm
+          if !ep.prm.isEmpty then ret e "none" "-" false else
+          let cands := candidatesOf e
+          -- the Enforce calls go through the enforcer (compiled-matcher cache included)
+          let (ep', answers) := cands.foldl (fun (acc : EnfP × List (String × Option Bool)) u =>
+            let (x, r) := acc.1.enforceStep {} none (Val.str u :: perm.map Val.str)
+            (x, acc.2 ++ [(u, r.map (·.1))])) (ep, [])
+          let res := Rbac.implicitUsersForPermission cands (fun u => (answers.lookup u).bind id)
+          -- Go stops at the first error: the enforcer state is the one after the calls made so far;
+          -- only the matcher cache can differ and every call uses the same cache key
+          match res with
+          | .ok l => retP ep' ("L " ++ showSet l) "-" true
+          | .err => retP ep' "err" "-" true
       | "roles", gt :: u :: ds => do
           let u ← decodeTok u; let ds ← decodeAll ds
           match ep.getRoles gt u ds with
